@@ -140,7 +140,7 @@ func (e *Enc) prelude() string {
 	for _, a := range e.axioms {
 		fmt.Fprintf(&sb, "(assert %s)\n", a)
 	}
-	if _, ok := e.funs["sbyte"]; ok {
+	if _, ok := e.funs["sbyte"]; ok && os.Getenv("GOVC_NO_SBYTE") == "" {
 		// the bytes of a string are bytes
 		fmt.Fprintf(&sb, "(assert (forall ((i!s Int) (p!s Int)) (! (and (<= 0 (sbyte i!s p!s)) (<= (sbyte i!s p!s) 255)) :pattern ((sbyte i!s p!s)))))\n")
 	}
@@ -358,6 +358,9 @@ type SolveOpts struct {
 	Jobs     int
 	NoLead   bool
 	NoGround bool
+	NoRetry  bool
+	// SkipRetry names obligations a retry is pointless for (recorded known findings)
+	SkipRetry func(fn, ob string) bool
 	Kinds    map[string]bool // nil = all obligation kinds
 	Props    map[string]bool // the properties being checked (clause-level tags)
 	// CrossCheck (thorough tier): every discharged obligation is put to a second, different
@@ -372,6 +375,7 @@ func discharge(results []*FuncResult, opts SolveOpts) {
 		prelude string
 		query   string
 		base    string
+		fn      string
 	}
 	var jobs []job
 	n := 0
@@ -422,7 +426,7 @@ func discharge(results []*FuncResult, opts SolveOpts) {
 				continue
 			}
 			n++
-			jobs = append(jobs, job{ob: ob, prelude: prelude, query: buildQuery(fr.Enc, prelude, ob), base: fmt.Sprintf("q%04d_%s", n, sanitize(shortName(fr.Fn)+"_"+ob.Name))})
+			jobs = append(jobs, job{ob: ob, prelude: prelude, query: buildQuery(fr.Enc, prelude, ob), base: fmt.Sprintf("q%04d_%s", n, sanitize(shortName(fr.Fn)+"_"+ob.Name)), fn: fr.Fn})
 		}
 	}
 	var wg sync.WaitGroup
@@ -437,6 +441,40 @@ func discharge(results []*FuncResult, opts SolveOpts) {
 		}(j)
 	}
 	wg.Wait()
+	// second chance: an obligation that no solver decided in time (timeout/unknown, never a
+	// "sat") is tried once more, alone on the machine's cores and with three times the time -
+	// sixteen solvers running side by side slow each other down severalfold, and a proof that
+	// needs 6 s alone must not become an alarm because the machine was busy. A retry that
+	// succeeds is recorded as such in the evidence.
+	if !opts.NoRetry {
+		var undecided []job
+		for _, j := range jobs {
+			r := j.ob.Result
+			if j.ob.Cover || r == nil || r.Status == "unsat" || r.Status == "sat" || r.Status == "skipped" {
+				continue
+			}
+			if opts.SkipRetry != nil && opts.SkipRetry(j.fn, j.ob.Name) {
+				continue
+			}
+			undecided = append(undecided, j)
+		}
+		if len(undecided) > 6 {
+			undecided = nil // many undecided obligations are not a load problem
+		}
+		for _, j := range undecided {
+			r := j.ob.Result
+			o2 := opts
+			o2.Timeout = opts.Timeout * 3
+			o2.NoRetry = true
+			o2.NoGround = true
+			r2 := solveOb(j.ob, j.prelude, j.query, j.base+".retry", o2)
+			if r2.Status == "unsat" {
+				r2.Solver += "(retry)"
+				r2.Tried = append(append([]string{}, r.Tried...), r2.Tried...)
+				j.ob.Result = r2
+			}
+		}
+	}
 }
 
 // solveOb: try the whole goal quickly; if that is not decided and the goal is a conjunction,
